@@ -75,7 +75,7 @@ def test_cells(n, counts, expected, min_expected=10.0):
     list of (key, observed, prob) after pooling small cells into 'other'."""
     cells = []
     pool_o, pool_p = 0, 0.0
-    for k in set(counts) | set(expected):
+    for k in sorted(set(counts) | set(expected), key=repr):      # order must not depend on the hash seed
         p = expected.get(k, 0.0)
         o = counts.get(k, 0)
         if n * p < min_expected:
